@@ -315,6 +315,10 @@ func checkPass(run *kit.Run, c cfg, oc optCache, suffix string) {
 					}
 				case "options":
 					got = serve("OPTIONS", pth(0))
+					// the server-wide form runs the same chain
+					if g2 := serve("OPTIONS", "*"); !same(g2, expected(c, k.scope, nil)) {
+						fail("options handler for OPTIONS *", g2, expected(c, k.scope, nil))
+					}
 				}
 				want := expected(c, k.scope, nil)
 				run.Case(id+"|"+k.name, nonTrivial)
@@ -363,6 +367,9 @@ func main() {
 	for m := 0; m < 32; m++ { // the empty mask too: a middleware scoped to nothing wraps nothing
 		masks = append(masks, fox.HandlerScope(m)<<3)
 	}
+	// masks as callers write them with the complement operator or a catch-all constant: bits outside the five scopes
+	// are set too and mean nothing
+	masks = append(masks, ^fox.NoRouteHandler, ^fox.RedirectHandler, ^fox.RouteHandler, fox.HandlerScope(0xFF), fox.RouteHandler|1, fox.OptionsHandler|fox.NoMethodHandler|6, fox.HandlerScope(7))
 	maxK := run.Pick(2, 3)
 	if run.Mode() == "race" {
 		maxK = 1
@@ -380,7 +387,7 @@ func main() {
 	}
 	rec(nil)
 	run.Parallel(len(cfgs), func(i int) { check(run, cfgs[i]) })
-	run.SetExtra("exhaustive_subspace", fmt.Sprintf("all assignments of the 32 scope masks (the empty one included) to 0..%d global middleware entries (%d configurations) x 5 handler kinds + Route.Handle + Route.HandleMiddleware: enumerated completely", maxK, len(cfgs)))
+	run.SetExtra("exhaustive_subspace", fmt.Sprintf("all assignments of the 32 scope masks (the empty one included) and of 7 masks with bits outside the five scopes to 0..%d global middleware entries (%d configurations) x 5 handler kinds + Route.Handle + Route.HandleMiddleware: enumerated completely", maxK, len(cfgs)))
 	// random beyond
 	n := run.Pick(400, 1000000)
 	if run.Mode() == "race" {
